@@ -30,6 +30,9 @@ pub trait Source {
     fn want_ctor(&mut self, _w: &World, _ai: usize) -> Option<Cb> {
         None
     }
+    /// `new 0` (= `rootless_mutate`) is about to run on arena index `ai`: the executor writes the
+    /// `enter rootless_mutate` line by itself; a replay drops the copy it read from the trace.
+    fn begin_rootless(&mut self, _w: &World, _ai: usize) {}
 }
 
 pub struct ArenaSlot {
@@ -55,12 +58,15 @@ pub struct World {
 enum RootRef<'a, 'gc> {
     Shared(&'gc Root<'gc>),
     Mut(&'a mut Root<'gc>),
+    /// `rootless_mutate`: there is no root
+    Absent,
 }
 impl<'a, 'gc> RootRef<'a, 'gc> {
-    fn get(&self) -> &Root<'gc> {
+    fn get(&self) -> Option<&Root<'gc>> {
         match self {
-            RootRef::Shared(r) => r,
-            RootRef::Mut(r) => r,
+            RootRef::Shared(r) => Some(r),
+            RootRef::Mut(r) => Some(r),
+            RootRef::Absent => None,
         }
     }
 }
@@ -240,7 +246,13 @@ impl World {
     }
 
     fn write_op(&mut self, ai: usize, op: &Op) {
-        let text = format!("op {ai} {op}");
+        self.write_text(ai, &op.to_string());
+    }
+
+    /// Write an op line whose text is not the op's canonical one (`store onceset-full …`, the
+    /// phase lines of `store getorinit`).
+    fn write_text(&mut self, ai: usize, op_text: &str) {
+        let text = format!("op {ai} {op_text}");
         let _ = writeln!(self.out, "{text}");
         let _ = self.out.flush();
         self.ops_text.push(text);
@@ -280,11 +292,35 @@ impl World {
                 foreign += 1;
             }
         }
+        // the protocol carries the events that were observed ...
         let ev_text = if mine.is_empty() {
             "-".to_string()
         } else {
             mine.iter().map(|(d, i)| format!("{}{}", if *d { "d" } else { "f" }, i)).collect::<Vec<_>>().join(" ")
         };
+        // ... and the monitors additionally get the destructor runs of values without drop glue
+        // (`Kind::nodrop`), inferred from the `live` flag of the snapshots: live before this op, and
+        // now not live or gone.  (The flag itself is compared with the model in the `snap` section;
+        // the Lean driver leaves the model's `d` events of these objects out of the comparison.)
+        {
+            let slot = &self.arenas[ai];
+            let after: Option<HashMap<u32, bool>> =
+                snap.map(|s| s.all.iter().filter_map(|o| slot.addr2id.get(&o.addr).map(|i| (*i, o.live))).collect());
+            let mut inferred: Vec<u32> = slot
+                .colors
+                .iter()
+                .filter(|(id, c)| c.2 && slot.shadow.objs.get(**id as usize).is_some_and(|o| o.kind.nodrop()))
+                .filter(|(id, _)| match &after {
+                    None => true,
+                    Some(m) => !m.get(*id).copied().unwrap_or(false),
+                })
+                .map(|(id, _)| *id)
+                .collect();
+            inferred.sort();
+            let mut all: Vec<(bool, u32)> = inferred.into_iter().map(|i| (true, i)).collect();
+            all.append(&mut mine);
+            mine = all;
+        }
         let slot = &self.arenas[ai];
         let snap_text = match snap {
             Some(s) => show_snapshot(s, &slot.addr2id),
@@ -312,7 +348,11 @@ impl World {
         };
         if let Some(s) = snap {
             let before = std::mem::take(&mut self.arenas[ai].colors);
-            self.cover.record(op, &obs, s, &before, self.arenas[ai].phase);
+            let holder = match op {
+                Op::Store { p, .. } | Op::Read(p, _) => self.arenas[ai].shadow.objs.get(*p as usize).map(|o| o.kind),
+                _ => None,
+            };
+            self.cover.record(op, &obs, s, &before, self.arenas[ai].phase, holder);
             let slot = &mut self.arenas[ai];
             slot.colors = before;
             slot.colors.clear();
@@ -344,6 +384,12 @@ impl World {
     }
 
     fn top_op(&mut self, ai: usize, op: Op, src: &mut dyn Source) {
+        if op == Op::Marker {
+            return;
+        }
+        if op == Op::New(0) && ai == self.arenas.len() {
+            return self.rootless(ai, src);
+        }
         if let Op::New(n) = op {
             if ai != self.arenas.len() || n != NROOT {
                 self.skip(ai, &op);
@@ -501,6 +547,39 @@ impl World {
         self.after_owned_callback(ai, r);
     }
 
+    /// `arena::rootless_mutate(|mc| …)`: a throw-away arena without a root.  Protocol: `new 0`
+    /// (observed from inside the callback, like a constructor), `enter rootless_mutate`, the ops,
+    /// `leave` (observed inside: nothing may have been destructed or released by then — the C03
+    /// monitor), and `drop` once the call has returned: everything allocated must have been
+    /// destructed and released exactly once (C04 monitor at `drop`).
+    fn rootless(&mut self, ai: usize, src: &mut dyn Source) {
+        let op_new = Op::New(0);
+        let op_enter = Op::Enter(Cb::Rootless);
+        src.begin_rootless(self, ai);
+        self.write_op(ai, &op_new);
+        let r = catch_unwind(AssertUnwindSafe(|| {
+            gc_arena::arena::rootless_mutate(|mc| {
+                let metrics = mc.metrics().clone();
+                metrics.set_pacing(pacing_of(&P0));
+                self.arenas.push(ArenaSlot { colors: HashMap::new(), phase: b'Z', arena: None, metrics: Some(metrics), addr2id: HashMap::new(), shadow: Shadow::new(0) });
+                let snap = mc.verif_snapshot();
+                let ph = cphase_of_snapshot(&snap);
+                self.finish_op(ai, &op_new, "ok".into(), Pre { phase: CPhase::Sleeping, debt: 0.0, total: 0 }, Some(&snap), ph, String::new());
+                self.write_op(ai, &op_enter);
+                let pre = Pre { phase: CPhase::Sleeping, debt: 0.0, total: 0 };
+                let mut cb = CbCtx { mc, fc: None, root: RootRef::Absent, temps: vec![], leave_inside: true };
+                self.enter_obs(ai, &op_enter, &cb, pre);
+                self.callback_loop(ai, &mut cb, src);
+                drop(cb);
+            });
+            None::<TestArena>
+        }));
+        if self.arenas.len() == ai {
+            self.arenas.push(ArenaSlot { colors: HashMap::new(), phase: b'Z', arena: None, metrics: None, addr2id: HashMap::new(), shadow: Shadow::new(0) });
+        }
+        self.after_owned_callback(ai, r);
+    }
+
     /// After a callback that owned the root (`map_root`, `try_map_root`, the constructor of `new` /
     /// `try_new`): the observation of `leave` was emitted inside the callback.  If the API call
     /// produced an arena it goes (back) into the slot; otherwise the arena is gone — everything it
@@ -569,6 +648,14 @@ impl World {
     }
 
     fn collect(&mut self, ai: usize, method: Method, cont: Cont, fault: Option<(usize, usize)>, src: &mut dyn Source) {
+        // A trace fault is "the k-th trace call panics"; tracing an *empty* `OnceLock` runs no client
+        // code, so with such a cell around the index would not mean the same thing on both sides:
+        // the call is then made (and written) without the fault.
+        let fault = if self.arenas[ai].shadow.objs.iter().any(|o| o.kind == Kind::OnceCell && o.dropped == 0 && o.freed == 0 && o.slots.first().is_some_and(|s| s.is_none())) {
+            None
+        } else {
+            fault
+        };
         let op = Op::Collect { method, cont, fault };
         self.write_op(ai, &op);
         let pre = self.pre(ai);
@@ -668,22 +755,13 @@ impl World {
     /// payload id is read through the pointer (the C01 "dereference reads what was stored" oracle).
     fn identify<'gc>(&self, ai: usize, p: P<'gc>) -> Result<SP, String> {
         let by_addr = self.arenas[ai].addr2id.get(&p.addr()).copied();
-        match p {
-            P::S(g) => {
-                let id = g.id.get();
-                match by_addr {
-                    Some(i) if tag(ai, i) == id => Ok(SP::S(i)),
-                    _ => Err(format!("bad-read:addr={:?} payload-id={:#x}", by_addr, id)),
-                }
-            }
-            P::SL(g) => {
-                let id = g.id.get();
-                match by_addr {
-                    Some(i) if tag(ai, i) == id => Ok(SP::S(i)),
-                    _ => Err(format!("bad-read:addr={:?} payload-id={:#x}", by_addr, id)),
-                }
-            }
-            P::W(_) | P::WL(_) => match by_addr {
+        match p.payload_id() {
+            // strong: `pid` is `None` for an empty `OnceCell` (no payload to read)
+            Some(pid) => match by_addr {
+                Some(i) if pid.is_none_or(|id| tag(ai, i) == id) => Ok(SP::S(i)),
+                _ => Err(format!("bad-read:addr={:?} payload-id={:#x}", by_addr, pid.unwrap_or(0))),
+            },
+            None => match by_addr {
                 Some(i) => Ok(SP::W(i)),
                 None => Err("bad-read:unknown-weak-address".into()),
             },
@@ -729,6 +807,8 @@ impl World {
                     }
                     return (pre, false);
                 }
+                Op::Marker => {}
+                Op::Enter(Cb::Rootless) if matches!(cb.root, RootRef::Absent) => {}
                 _ => self.cb_op(ai, cb, op),
             }
         }
@@ -749,64 +829,44 @@ impl World {
 
     fn cb_op<'gc>(&mut self, ai: usize, cb: &mut CbCtx<'_, 'gc>, op: Op) {
         let mc = cb.mc;
-        // operand checks (a replayed / shrunk sequence may name pointers that are not held)
-        let strong_node = |cb: &CbCtx<'_, 'gc>, p: u32| match Self::lookup(cb, SP::S(p)) {
-            Some(P::S(g)) => Some(g),
-            _ => None,
-        };
         match &op {
-            Op::Alloc { leaf, slots } => {
-                let mut vals = [None; NSLOTS];
-                if !*leaf {
-                    if slots.len() != NSLOTS {
-                        return self.skip(ai, &op);
-                    }
-                    for (k, s) in slots.iter().enumerate() {
-                        match Self::value_of(cb, s) {
-                            Some(v) => vals[k] = v,
-                            None => return self.skip(ai, &op),
-                        }
-                    }
-                } else if !slots.is_empty() {
+            Op::Alloc { kind, slots } => {
+                let kind = *kind;
+                if slots.len() != kind.alloc_args() {
                     return self.skip(ai, &op);
+                }
+                let mut vals = [None; NSLOTS];
+                for (k, s) in slots.iter().enumerate() {
+                    match Self::value_of(cb, s) {
+                        Some(v) => vals[k] = v,
+                        None => return self.skip(ai, &op),
+                    }
                 }
                 self.write_op(ai, &op);
                 let pre = self.pre_cb(ai, cb);
-                let id = self.arenas[ai].shadow.objs.len() as u32;
-                let t = tag(ai, id);
-                let p = if *leaf {
-                    let v = Leaf { id: std::cell::Cell::new(t), val: gc_arena::lock::RefLock::new(0) };
-                    alloc::expect_gc(t);
-                    P::SL(Gc::new(mc, v))
-                } else {
-                    let v = Node { id: std::cell::Cell::new(t), slots: vals.map(gc_arena::lock::RefLock::new) };
-                    alloc::expect_gc(t);
-                    P::S(Gc::new(mc, v))
-                };
-                let consumed = alloc::expect_consumed();
-                alloc::untracked(|_| self.arenas[ai].addr2id.insert(p.addr(), id));
+                let (id, p, consumed) = self.alloc_obj(ai, mc, kind, vals);
                 Self::push_temp(cb, SP::S(id), p);
                 let ret = if consumed { id.to_string() } else { format!("{id}!no-block-allocated") };
                 self.finish_cb(ai, cb, &op, ret, pre);
             }
             Op::ReadRoot(i) => {
-                if *i >= NROOT {
+                if *i >= NROOT || cb.root.get().is_none() {
                     return self.skip(ai, &op);
                 }
                 self.write_op(ai, &op);
                 let pre = self.pre_cb(ai, cb);
-                let v = cb.root.get().slots[*i];
+                let v = cb.root.get().unwrap().slots[*i];
                 let ret = self.read_result(ai, cb, v);
                 self.finish_cb(ai, cb, &op, ret, pre);
             }
             Op::Read(p, i) => {
-                let Some(g) = strong_node(cb, *p) else { return self.skip(ai, &op) };
-                if *i >= NSLOTS {
+                let Some(h) = Self::lookup(cb, SP::S(*p)) else { return self.skip(ai, &op) };
+                if *i >= Self::kind_of(h).nslots() {
                     return self.skip(ai, &op);
                 }
                 self.write_op(ai, &op);
                 let pre = self.pre_cb(ai, cb);
-                let v = *g.slots[*i].borrow();
+                let v = Self::read_slot(h, *i);
                 let ret = self.read_result(ai, cb, v);
                 self.finish_cb(ai, cb, &op, ret, pre);
             }
@@ -814,11 +874,7 @@ impl World {
                 let Some(v) = Self::lookup(cb, SP::S(*p)) else { return self.skip(ai, &op) };
                 self.write_op(ai, &op);
                 let pre = self.pre_cb(ai, cb);
-                let w = match v {
-                    P::S(g) => P::W(Gc::downgrade(g)),
-                    P::SL(g) => P::WL(Gc::downgrade(g)),
-                    x => x,
-                };
+                let w = v.downgrade();
                 Self::push_temp(cb, SP::W(*p), w);
                 self.finish_cb(ai, cb, &op, "ok".into(), pre);
             }
@@ -826,11 +882,7 @@ impl World {
                 let Some(v) = Self::lookup(cb, SP::W(*w)) else { return self.skip(ai, &op) };
                 self.write_op(ai, &op);
                 let pre = self.pre_cb(ai, cb);
-                let up = match v {
-                    P::W(g) => g.upgrade(mc).map(P::S),
-                    P::WL(g) => g.upgrade(mc).map(P::SL),
-                    _ => None,
-                };
+                let up = v.upgrade(mc);
                 let ret = match up {
                     None => "none".to_string(),
                     Some(p) => match self.identify(ai, p) {
@@ -848,52 +900,27 @@ impl World {
                 let Some(v) = Self::lookup(cb, SP::W(*w)) else { return self.skip(ai, &op) };
                 self.write_op(ai, &op);
                 let pre = self.pre_cb(ai, cb);
-                let d = match v {
-                    P::W(g) => g.is_dropped(),
-                    P::WL(g) => g.is_dropped(),
-                    _ => false,
-                };
+                let d = v.is_dropped();
                 self.finish_cb(ai, cb, &op, d.to_string(), pre);
             }
             Op::IsDead(p) => {
                 let (Some(fc), Some(v)) = (cb.fc, Self::lookup(cb, *p)) else { return self.skip(ai, &op) };
                 self.write_op(ai, &op);
                 let pre = self.pre_cb(ai, cb);
-                let d = match v {
-                    P::S(g) => Gc::is_dead(fc, g),
-                    P::SL(g) => Gc::is_dead(fc, g),
-                    P::W(g) => g.is_dead(fc),
-                    P::WL(g) => g.is_dead(fc),
-                };
+                let d = v.is_dead(fc);
                 self.finish_cb(ai, cb, &op, d.to_string(), pre);
             }
             Op::Resurrect(p) => {
                 let (Some(fc), Some(v)) = (cb.fc, Self::lookup(cb, *p)) else { return self.skip(ai, &op) };
                 self.write_op(ai, &op);
                 let pre = self.pre_cb(ai, cb);
-                let ret = match v {
-                    P::S(g) => {
-                        Gc::resurrect(fc, g);
-                        "ok".to_string()
+                let ret = match v.resurrect(fc) {
+                    Ok(()) => "ok".to_string(),
+                    Err(None) => "none".to_string(),
+                    Err(Some(s)) => {
+                        Self::push_temp(cb, SP::S(p.id()), s);
+                        "some".to_string()
                     }
-                    P::SL(g) => {
-                        Gc::resurrect(fc, g);
-                        "ok".to_string()
-                    }
-                    P::W(g) => match g.resurrect(fc) {
-                        None => "none".to_string(),
-                        Some(s) => {
-                            Self::push_temp(cb, SP::S(p.id()), P::S(s));
-                            "some".to_string()
-                        }
-                    },
-                    P::WL(g) => match g.resurrect(fc) {
-                        None => "none".to_string(),
-                        Some(s) => {
-                            Self::push_temp(cb, SP::S(p.id()), P::SL(s));
-                            "some".to_string()
-                        }
-                    },
                 };
                 self.finish_cb(ai, cb, &op, ret, pre);
             }
@@ -931,35 +958,7 @@ impl World {
                 };
                 self.finish_cb(ai, cb, &op, ret, pre);
             }
-            Op::Store { path, p, i, v } => {
-                let Some(g) = strong_node(cb, *p) else { return self.skip(ai, &op) };
-                let Some(val) = Self::value_of(cb, v) else { return self.skip(ai, &op) };
-                if *i >= NSLOTS {
-                    return self.skip(ai, &op);
-                }
-                self.write_op(ai, &op);
-                let pre = self.pre_cb(ai, cb);
-                let r = catch_unwind(AssertUnwindSafe(|| match path {
-                    Path::Write => {
-                        // Gc::write -> field! -> IndexWrite -> Unlock -> RefCell::borrow_mut
-                        let w = Gc::write(mc, g);
-                        let slots = field!(w, Node, slots);
-                        *slots[*i].unlock().borrow_mut() = val;
-                    }
-                    Path::Raw => unsafe {
-                        *g.slots[*i].as_ref_cell().borrow_mut() = val;
-                    },
-                    Path::Stb => unsafe {
-                        *g.slots[*i].as_ref_cell().borrow_mut() = val;
-                        mc.backward_barrier(Gc::erase(g), None);
-                    },
-                }));
-                let ret = match r {
-                    Ok(()) => "ok".to_string(),
-                    Err(e) => format!("panic:{}", e.downcast_ref::<String>().cloned().or_else(|| e.downcast_ref::<&str>().map(|s| s.to_string())).unwrap_or_else(|| "?".into()).replace(['|', '\n'], " ")),
-                };
-                self.finish_cb(ai, cb, &op, ret, pre);
-            }
+            Op::Store { path, p, i, v } => self.store_op(ai, cb, &op, *path, *p, *i, *v),
             Op::RootStore { i, v } => {
                 let Some(val) = Self::value_of(cb, v) else { return self.skip(ai, &op) };
                 if *i >= NROOT || !matches!(cb.root, RootRef::Mut(_)) {
@@ -974,6 +973,260 @@ impl World {
             }
             _ => self.skip(ai, &op),
         }
+    }
+
+    fn kind_of(p: P<'_>) -> Kind {
+        match p {
+            P::S(_) | P::W(_) => Kind::Node,
+            P::SL(_) | P::WL(_) => Kind::Leaf,
+            P::SR(_) | P::WR(_) => Kind::RefNode,
+            P::SC(_) | P::WC(_) => Kind::LockCell,
+            P::SO(_) | P::WO(_) => Kind::OnceCell,
+        }
+    }
+
+    /// What slot `i` of the object holds, read through the strong pointer `h`.
+    fn read_slot<'gc>(h: P<'gc>, i: usize) -> Option<P<'gc>> {
+        match h {
+            P::S(g) => *g.slots[i].borrow(),
+            P::SR(g) => g.borrow().slots[i],
+            P::SC(g) => g.get().v,
+            P::SO(g) => g.get().map(|b| b.v),
+            _ => None,
+        }
+    }
+
+    /// Allocate an object of the given kind with the next id of arena `ai`.
+    fn alloc_obj<'gc>(&mut self, ai: usize, mc: &'gc Mutation<'gc>, kind: Kind, vals: [Option<P<'gc>>; NSLOTS]) -> (u32, P<'gc>, bool) {
+        use gc_arena::lock::{Lock, OnceLock, RefLock};
+        let id = self.arenas[ai].shadow.objs.len() as u32;
+        let t = tag(ai, id);
+        let p = match kind {
+            Kind::Leaf => {
+                let v = Leaf { id: std::cell::Cell::new(t), val: RefLock::new(0) };
+                alloc::expect_gc(t);
+                P::SL(Gc::new(mc, v))
+            }
+            Kind::Node => {
+                let v = Node { id: std::cell::Cell::new(t), slots: vals.map(RefLock::new) };
+                alloc::expect_gc(t);
+                P::S(Gc::new(mc, v))
+            }
+            Kind::RefNode => {
+                let v: RefNode<'gc> = RefLock::new(RefBody { id: std::cell::Cell::new(t), slots: vals });
+                alloc::expect_gc(t);
+                P::SR(Gc::new(mc, v))
+            }
+            Kind::LockCell => {
+                let v: LockCell<'gc> = Lock::new(LockBody { id: t, v: vals[0] });
+                alloc::expect_gc(t);
+                P::SC(Gc::new(mc, v))
+            }
+            Kind::OnceCell => {
+                let v: OnceCellT<'gc> = OnceLock::new();
+                alloc::expect_gc(t);
+                P::SO(Gc::new(mc, v))
+            }
+        };
+        let consumed = alloc::expect_consumed();
+        alloc::untracked(|_| self.arenas[ai].addr2id.insert(p.addr(), id));
+        (id, p, consumed)
+    }
+
+    /// `store <path> p i v`: one of the store routes of `Kind::paths`.
+    #[allow(clippy::too_many_arguments)]
+    fn store_op<'gc>(&mut self, ai: usize, cb: &mut CbCtx<'_, 'gc>, op: &Op, path: Path, p: u32, i: usize, v: SSlot) {
+        let mc = cb.mc;
+        let Some(h) = Self::lookup(cb, SP::S(p)) else { return self.skip(ai, op) };
+        let kind = Self::kind_of(h);
+        if !kind.paths().contains(&path) || i >= kind.nslots() {
+            return self.skip(ai, op);
+        }
+        // `getorinit` whose value names the next fresh id: the closure allocates the child
+        let fresh = path == Path::GetOrInit && v == Some(SP::S(self.arenas[ai].shadow.objs.len() as u32)) && Self::lookup(cb, v.unwrap()).is_none();
+        let val = if fresh {
+            None
+        } else {
+            match Self::value_of(cb, &v) {
+                Some(x) => x,
+                None => return self.skip(ai, op),
+            }
+        };
+        let panic_text = |e: Box<dyn std::any::Any + Send>| format!("panic:{}", e.downcast_ref::<String>().cloned().or_else(|| e.downcast_ref::<&str>().map(|s| s.to_string())).unwrap_or_else(|| "?".into()).replace(['|', '\n'], " "));
+        if let P::SO(g) = h {
+            // ---- a `Gc<OnceLock<_>>` cell ----
+            if val.is_none() && !fresh {
+                return self.skip(ai, op); // a OnceLock cannot be emptied
+            }
+            let t = tag(ai, p);
+            if g.get().is_some() {
+                // occupied: `set` fails, `get_or_init` returns what is there; neither may store or
+                // issue a barrier.  For the model this is a read (`… -full` line).
+                if path == Path::Raw {
+                    return self.skip(ai, op);
+                }
+                self.write_text(ai, &format!("store {}-full {p} {i} {}", path.name(), show_slot(&v)));
+                let pre = self.pre_cb(ai, cb);
+                let r = catch_unwind(AssertUnwindSafe(|| match (path, val) {
+                    (Path::OnceSet, Some(x)) => match g.set(mc, OnceBody { id: t, v: x }) {
+                        Ok(()) => Err("stored-into-occupied-cell".to_string()),
+                        Err(_) => Ok(g.get().map(|b| b.v)),
+                    },
+                    _ => {
+                        let mut called = false;
+                        let got = g.get_or_init(mc, || {
+                            called = true;
+                            OnceBody { id: t, v: val.unwrap_or(h) }
+                        });
+                        if called { Err("closure-run-on-occupied-cell".to_string()) } else { Ok(Some(got.v)) }
+                    }
+                }));
+                let ret = match r {
+                    Ok(Ok(cur)) => self.read_result(ai, cb, cur),
+                    Ok(Err(e)) => e,
+                    Err(e) => panic_text(e),
+                };
+                return self.finish_cb(ai, cb, op, ret, pre);
+            }
+            match path {
+                Path::OnceSet | Path::Raw => {
+                    let Some(x) = val else { return self.skip(ai, op) };
+                    self.write_op(ai, op);
+                    let pre = self.pre_cb(ai, cb);
+                    let r = catch_unwind(AssertUnwindSafe(|| {
+                        let body = OnceBody { id: t, v: x };
+                        if path == Path::OnceSet { g.set(mc, body).is_ok() } else { unsafe { gc_arena::barrier::Unlock::unlock_unchecked(g.as_ref()).set(body).is_ok() } }
+                    }));
+                    let ret = match r {
+                        Ok(true) => "ok".to_string(),
+                        Ok(false) => "set-failed-on-empty-cell".to_string(),
+                        Err(e) => panic_text(e),
+                    };
+                    self.finish_cb(ai, cb, op, ret, pre);
+                }
+                _ => {
+                    // get_or_init on an empty cell, in its three phases: the barrier (observed at
+                    // the start of the closure), the closure (which allocates the child if `fresh`),
+                    // the store (observed after the call).  For the model: `bb p -`, `alloc`, and a
+                    // store covered by that barrier.
+                    let op_b = Op::Barrier(Barrier::Bb(p, None));
+                    self.write_text(ai, &format!("barrier getorinit {p}"));
+                    let pre_b = self.pre_cb(ai, cb);
+                    let mut pre_b = Some(pre_b);
+                    let mut pre_s = None;
+                    let r = catch_unwind(AssertUnwindSafe(|| {
+                        g.get_or_init(mc, || {
+                            {
+                                // coverage cell of the setter, with the colours as they were before
+                                // the barrier phase (the final `store getorinit` line sees them after)
+                                let slot = &self.arenas[ai];
+                                let col = |x: u32| slot.colors.get(&x).map(|c| (c.0 as char).to_string()).unwrap_or_else(|| "new".into());
+                                let child = match v {
+                                    Some(SP::S(x)) => format!("s:{}", col(x)),
+                                    Some(SP::W(x)) => format!("w:{}", col(x)),
+                                    None => "-".into(),
+                                };
+                                let key = format!("setter×holder×phase×parent×child|getorinit|oncecell|stored|{}|{}|{}", slot.phase as char, col(p), child);
+                                let (ph, pc) = (slot.phase as char, col(p));
+                                self.cover.bump(key);
+                                self.cover.lock_setter(Path::GetOrInit, Kind::OnceCell, "stored", ph, &pc, &v);
+                            }
+                            self.finish_cb(ai, cb, &op_b, "ok".into(), pre_b.take().unwrap());
+                            self.cover.bump(format!("getorinit×closure|{}", if fresh { "allocates" } else { "returns-held" }));
+                            let x = if fresh {
+                                let op_a = Op::Alloc { kind: Kind::Node, slots: vec![None; NSLOTS] };
+                                self.write_text(ai, "alloc getorinit-child none none none");
+                                let pre = self.pre_cb(ai, cb);
+                                let (id, c, consumed) = self.alloc_obj(ai, mc, Kind::Node, [None; NSLOTS]);
+                                Self::push_temp(cb, SP::S(id), c);
+                                let ret = if consumed { id.to_string() } else { format!("{id}!no-block-allocated") };
+                                self.finish_cb(ai, cb, &op_a, ret, pre);
+                                c
+                            } else {
+                                val.unwrap()
+                            };
+                            pre_s = Some(self.pre_cb(ai, cb));
+                            OnceBody { id: t, v: x }
+                        });
+                    }));
+                    if let Some(pre) = pre_b.take() {
+                        // the closure was never run (or the call unwound before it)
+                        let ret = match &r {
+                            Ok(()) => "closure-not-run".to_string(),
+                            Err(_) => "panic-before-closure".to_string(),
+                        };
+                        self.finish_cb(ai, cb, &op_b, ret, pre);
+                    }
+                    self.write_op(ai, op);
+                    let pre = match pre_s {
+                        Some(x) => x,
+                        None => self.pre_cb(ai, cb),
+                    };
+                    let ret = match r {
+                        Ok(()) => "ok".to_string(),
+                        Err(e) => panic_text(e),
+                    };
+                    self.finish_cb(ai, cb, op, ret, pre);
+                }
+            }
+            return;
+        }
+        self.write_op(ai, op);
+        let pre = self.pre_cb(ai, cb);
+        let r = catch_unwind(AssertUnwindSafe(|| -> Result<(), &'static str> {
+            match h {
+                P::S(g) => match path {
+                    Path::Write => {
+                        // Gc::write -> field! -> IndexWrite -> Unlock -> RefCell::borrow_mut
+                        let w = Gc::write(mc, g);
+                        let slots = field!(w, Node, slots);
+                        *slots[i].unlock().borrow_mut() = val;
+                    }
+                    Path::Raw => unsafe {
+                        *g.slots[i].as_ref_cell().borrow_mut() = val;
+                    },
+                    _ => unsafe {
+                        *g.slots[i].as_ref_cell().borrow_mut() = val;
+                        mc.backward_barrier(Gc::erase(g), None);
+                    },
+                },
+                P::SR(g) => match path {
+                    Path::Write => Gc::write(mc, g).unlock().borrow_mut().slots[i] = val,
+                    Path::BorrowMut => g.borrow_mut(mc).slots[i] = val,
+                    Path::TryBorrowMut => match g.try_borrow_mut(mc) {
+                        Ok(mut b) => b.slots[i] = val,
+                        Err(_) => return Err("try-borrow-mut-failed"),
+                    },
+                    Path::Unlock => g.unlock(mc).borrow_mut().slots[i] = val,
+                    Path::Raw => unsafe { g.as_ref_cell().borrow_mut().slots[i] = val },
+                    _ => unsafe {
+                        g.as_ref_cell().borrow_mut().slots[i] = val;
+                        mc.backward_barrier(Gc::erase(g), None);
+                    },
+                },
+                P::SC(g) => {
+                    let body = LockBody { id: g.get().id, v: val };
+                    match path {
+                        Path::Write => Gc::write(mc, g).unlock().set(body),
+                        Path::LockSet => g.set(mc, body),
+                        Path::Unlock => g.unlock(mc).set(body),
+                        Path::Raw => unsafe { g.as_cell().set(body) },
+                        _ => unsafe {
+                            g.as_cell().set(body);
+                            mc.backward_barrier(Gc::erase(g), None);
+                        },
+                    }
+                }
+                _ => return Err("no-slots"),
+            }
+            Ok(())
+        }));
+        let ret = match r {
+            Ok(Ok(())) => "ok".to_string(),
+            Ok(Err(e)) => e.to_string(),
+            Err(e) => panic_text(e),
+        };
+        self.finish_cb(ai, cb, op, ret, pre);
     }
 
     fn read_result<'gc>(&mut self, ai: usize, cb: &mut CbCtx<'_, 'gc>, v: Option<P<'gc>>) -> String {
